@@ -1,5 +1,6 @@
 """Checkpointing functionality for solvers."""
 
+import os
 from abc import ABC, abstractmethod
 from contextlib import contextmanager
 from pathlib import Path
@@ -225,7 +226,12 @@ class CheckpointMixin(ABC):
 
     def _save_solver_config(self) -> None:
         """Save the solver config to the checkpoint directory."""
-        OmegaConf.save(self.config, self.checkpoint_dir / "config.yaml")
+        # Write to a temporary file and rename, so that an interruption never
+        # leaves a truncated config next to already completed checkpoints
+        config_path = self.checkpoint_dir / "config.yaml"
+        tmp_path = self.checkpoint_dir / "config.yaml.tmp"
+        OmegaConf.save(self.config, tmp_path)
+        os.replace(tmp_path, config_path)
 
     @classmethod
     def _create_checkpoint_manager(
